@@ -133,6 +133,7 @@ func Generate(cfg Config) (string, *Report, error) {
 			if x, ok := cfg.Extra[rel]; ok {
 				src = []byte(x)
 			}
+			src = exportGoBodies(rel, src, rep)
 			out, n, err := rewriteFile(rel, src, rep, typed)
 			if err != nil {
 				rep.Failed = append(rep.Failed, rel+": "+err.Error())
